@@ -46,12 +46,17 @@ def _parseDEC(x):
 
 
 _xmask = {2: 1 << 9, 8: 1 << 29, 16: 1 << 39}
+_xdigits = {
+    2: set('01'), 8: set('01234567'), 16: set('0123456789abcdefABCDEF')
+}
 
 
 def _x2dec(x, base=16):
     if isinstance(x, XlError):
         return x
     try:
+        if isinstance(x, str) and not set(x) <= _xdigits[base]:
+            raise ValueError  # `int` accepts also signs, blanks, `_`, and `0x`.
         x, y = int(x, base), _xmask[base]
         return (x & ~y) - (y & x)
     except ValueError:
